@@ -27,6 +27,7 @@ CONSTANTS Edges,   \* edge names
           Alns     \* alignments (ids)
 
 NoVal == 0
+BadAln == 0   \* an alignment the model cannot take (characters outside its alphabet): updates raise
 
 VARIABLES blk,    \* blk[e]: the block (set of edges) e belongs to
           const,  \* const[e]: e's block is held constant
@@ -38,7 +39,7 @@ vars == <<blk, const, val, mp, aln, susp>>
 TypeOK == /\ blk \in [Edges -> SUBSET Edges]
           /\ const \in [Edges -> BOOLEAN]
           /\ val \in [Edges -> Vals]
-          /\ mp \in Mprobs /\ aln \in Alns /\ susp \in BOOLEAN
+          /\ mp \in Mprobs /\ aln \in Alns \cup {BadAln} /\ susp \in BOOLEAN
 
 (* blocks form a partition and members of a block agree on their setting *)
 Partitioned ==
@@ -67,6 +68,7 @@ MeanOK(B) == SumOver(B, val) % Cardinality(B) = 0
 NewVal(B, v) == IF v # NoVal THEN v ELSE SumOver(B, val) \div Cardinality(B)
 
 SetRuleT(S, indep, c, v) ==
+    /\ (aln # BadAln \/ susp)
     /\ S # {} /\ S \subseteq Edges
     /\ v = NoVal => (IF indep THEN TRUE ELSE MeanOK(S))
     /\ blk'   = [e \in Edges |-> IF e \in S THEN (IF indep THEN {e} ELSE S) ELSE blk[e] \ S]
@@ -75,22 +77,29 @@ SetRuleT(S, indep, c, v) ==
     /\ UNCHANGED <<mp, aln, susp>>
 SetRule(S, indep, c, v) == SetRuleT(S, indep, c, v) /\ Log("SetRule", <<S, indep, c, v>>)
 
-SetMprobsT(m) == mp' = m /\ UNCHANGED <<blk, const, val, aln, susp>>
+SetMprobsT(m) == (aln # BadAln \/ susp) /\ mp' = m /\ UNCHANGED <<blk, const, val, aln, susp>>
 SetMprobs(m) == SetMprobsT(m) /\ Log("SetMprobs", <<m>>)
 
 SetAlnT(a) == aln' = a /\ UNCHANGED <<blk, const, val, mp, susp>>
 SetAln(a) == SetAlnT(a) /\ Log("SetAln", <<a>>)
 
-BeginT == ~susp /\ susp' = TRUE /\ UNCHANGED <<blk, const, val, mp, aln>>
+BeginT == ~susp /\ aln # BadAln /\ susp' = TRUE /\ UNCHANGED <<blk, const, val, mp, aln>>
 Begin == BeginT /\ Log("Begin", <<>>)
 
-EndT == susp /\ susp' = FALSE /\ UNCHANGED <<blk, const, val, mp, aln>>
+EndT == susp /\ aln # BadAln /\ susp' = FALSE /\ UNCHANGED <<blk, const, val, mp, aln>>
 End == EndT /\ Log("End", <<>>)
+
+(* a rejected input inside a batch: the block's closing update raises part-way through; the
+   function is unusable until the input is repaired, and then everything set in the block counts *)
+SetBadAlnT == susp /\ aln # BadAln /\ aln' = BadAln /\ UNCHANGED <<blk, const, val, mp, susp>>
+SetBadAln == SetBadAlnT /\ Log("SetBadAln", <<>>)
+FailedEndT == susp /\ aln = BadAln /\ susp' = FALSE /\ UNCHANGED <<blk, const, val, mp, aln>>
+FailedEnd == FailedEndT /\ Log("FailedEnd", <<>>)
 
 (* the block is left by an exception raised after a rule was set inside it:
    same effect as SetRule(S, shared, variable, v), then the block ends *)
 AbortBlockT(S, v) ==
-    /\ susp /\ v # NoVal /\ S # {} /\ S \subseteq Edges
+    /\ susp /\ aln # BadAln /\ v # NoVal /\ S # {} /\ S \subseteq Edges
     /\ blk'   = [e \in Edges |-> IF e \in S THEN S ELSE blk[e] \ S]
     /\ const' = [e \in Edges |-> IF e \in S THEN FALSE ELSE const[e]]
     /\ val'   = [e \in Edges |-> IF e \in S THEN v ELSE val[e]]
@@ -100,7 +109,7 @@ AbortBlock(S, v) == AbortBlockT(S, v) /\ Log("AbortBlock", <<S, v>>)
 
 (* optimiser round: free blocks -> v1 -> v2 -> v1, written back *)
 CalcRoundT(v1, v2) ==
-    /\ ~susp /\ NFree > 0 /\ v1 # v2
+    /\ ~susp /\ aln # BadAln /\ NFree > 0 /\ v1 # v2
     /\ val' = [e \in Edges |-> IF const[e] THEN val[e] ELSE v1]
     /\ UNCHANGED <<blk, const, mp, aln, susp>>
 CalcRound(v1, v2) == CalcRoundT(v1, v2) /\ Log("CalcRound", <<v1, v2>>)
@@ -108,7 +117,7 @@ CalcRound(v1, v2) == CalcRoundT(v1, v2) /\ Log("CalcRound", <<v1, v2>>)
 Next == \/ \E S \in SUBSET Edges \ {{}}, i \in BOOLEAN, c \in BOOLEAN, v \in Vals \cup {NoVal} : SetRule(S, i, c, v)
         \/ \E m \in Mprobs : SetMprobs(m)
         \/ \E a \in Alns : SetAln(a)
-        \/ Begin \/ End
+        \/ Begin \/ End \/ SetBadAln \/ FailedEnd
         \/ \E S \in SUBSET Edges \ {{}}, v \in Vals : AbortBlock(S, v)
         \/ \E v1, v2 \in Vals : CalcRound(v1, v2)
 
